@@ -27,6 +27,8 @@ TRANS = [(0.0, 0.0, 0.0), (1.0, 2.0, 3.0), (-300.0, 120.0, 0.5), (1000.0, 1000.0
 FORMS = ["quat", "list", "neglist", "matrix"]
 POSES = [((1.0, 0.0, 0.0), (0, 0, 1), 0.0), ((-4.0, 2.5, 1.0), (0, 0, 1), 2.2), ((0.3, 7.0, -2.0), (0.2, 0.1, 0.9), -1.0)]
 FR = [FrameID.BASE_LINK, FrameID.MAP, FrameID.CAM_FRONT, FrameID.LIDAR_TOP]
+# frame triples (A, B, C) of the registry layer; the second one uses frames whose names contain one another
+TRIPLES = [(FrameID.BASE_LINK, FrameID.MAP, FrameID.CAM_FRONT), (FrameID.CAM_TRAFFIC_LIGHT, FrameID.CAM_TRAFFIC_LIGHT_NEAR, FrameID.CAM_TRAFFIC_LIGHT_FAR)]
 
 
 # registry history alphabet: two alternative A->B matrices, one B->A matrix, deletions and both queries
@@ -116,10 +118,11 @@ def run_unit(unit, acc):
                     rec(h + [i])
         rec([unit["first"]])
     else:
-        for mask in range(8):
-            for s, d in itertools.product(range(3), repeat=2):
-                for spell in ("enum", "str", "key", "mixed"):
-                    check_case(dict(kind="registry", mask=mask, src=s, dst=d, spell=spell), acc)
+        for triple in range(len(TRIPLES)):
+            for mask in range(8):
+                for s, d in itertools.product(range(3), repeat=2):
+                    for spell in ("enum", "str", "key", "mixed"):
+                        check_case(dict(kind="registry", mask=mask, src=s, dst=d, spell=spell, triple=triple), acc)
 
 
 def close(a, b, tol=1e-9):
@@ -224,7 +227,25 @@ def check_case(case, acc):
             pos3, rot3 = H.transform(position=p, rotation=list(q))
             if not close(pos3, pos2) or not same_rot(rot3, rot2.rotation_matrix):
                 bad("transform:keyword-form", "keyword / list-rotation call differs from the positional call")
+        # a transform built from the caller's arrays keeps its meaning when the caller reuses those buffers afterwards: forward and
+        # inverse must stay consistent with each other
         ai, gi, ti = case["entry"]
+        pos_buf = np.array(TRANS[ti], dtype=float)
+        rot_buf = rmat(rq(AXES[ai], ANGLES[gi]))
+        H2 = HomogeneousMatrix(pos_buf, rot_buf, FrameID.BASE_LINK, FrameID.MAP)
+        M4 = m4(rq(AXES[ai], ANGLES[gi]), TRANS[ti])
+        H3 = HomogeneousMatrix.from_matrix(M4, FrameID.BASE_LINK, FrameID.MAP)
+        pos_buf += 7.5
+        rot_buf[:] = np.eye(3)
+        M4[:3, 3] += 3.0
+        acc.exec(4)
+        for nm, Hx in (("array inputs", H2), ("from_matrix", H3)):
+            p0, ax0, ang0 = POSES[1]
+            q0 = Quaternion(rq(ax0, ang0))
+            fp, fr_ = Hx.transform(p0, q0)
+            bp, br = Hx.inv().transform(fp, fr_)
+            if not close(bp, p0, 1e-6) or not same_rot(br, q0.rotation_matrix, 1e-8):
+                bad("roundtrip:after-caller-buffer-reuse", "%s: after the caller modified its own arrays, transform followed by inverse returns %s for %s" % (nm, bp, p0))
         acc.state(("single", case["form"], ai, gi, ti), nontrivial=ai >= 3 and gi != 0)
         acc.outcome(("single", gi))
         if acc.cases % 53 == 1:
@@ -277,7 +298,7 @@ def check_case(case, acc):
             bad("chain:inverse", "chain of inverses differs from the inverse of the chain")
         acc.state(("chain", tuple(case["frames"]), case["a"][0], case["b"][0], case["c"][0]), nontrivial=True)
     else:
-        A, B, C = FrameID.BASE_LINK, FrameID.MAP, FrameID.CAM_FRONT
+        A, B, C = TRIPLES[case.get("triple", 0)]
         names = [A, B, C]
         reg = []
         e1, e2, e3 = (3, 2, 1), (1, 4, 2), (4, 5, 3)
@@ -344,7 +365,7 @@ def check_case(case, acc):
                 gp2 = td.transform(key, p)
                 if not close(gp2, gp, 1e-9):
                     bad("registry:position-form", "position-only query differs from the pose query")
-        acc.state(("registry", case["mask"], s, d, sp, how, outcome), nontrivial=how == "inverse")
+        acc.state(("registry", case.get("triple", 0), case["mask"], s, d, sp, how, outcome), nontrivial=how == "inverse")
         acc.outcome((how, outcome))
         if acc.cases % 17 == 1:
             acc.sample(case)
